@@ -118,7 +118,7 @@ var _ = store.MAX_NUM_CHUNK
 
 func C17(job *Job, r *Report) {
 	r.Level = "model_checking"
-	r.Rule = "part (a): every store layout of 1..5 (thorough 6) data-file slots, each a gap / a full file / a half file (last slot a real file), x 5 first-record-timestamp patterns (all old, all recent, last recent, last two recent, first recent = non-monotone) x head {empty, one unflushed record, one flushed record}, built directly as data files (index files are rebuilt); on each: ALL (start,end) in [-1..7]^2 x no_gc_days {-1 and -2 (both mean: the configured 2 days), 0, 1, 10000} x merge off/on with pretend=true (mutation log must stay empty), every refused tuple repeated with pretend=false (must be refused and change nothing), and one real pass per distinct (resolved range, merge, days) judged on the memfs mutation log by the property's own rules: no mutation of the head data file or later, nothing outside [start,end] except appends to a single earlier file, the next non-empty file after end older than the limit. part (b): two and three HStore.GC requests for one bucket from concurrent threads on a store where the range [0,1] is collectable; every interleaving at lock acquisitions, file-system calls and spawns with at most N preemptions (quick 2, thorough 3); a pass is in progress from the acceptance of its request until its goroutine has left gcMgr.gc (thread life observed by the scheduler); violation: two passes overlap, or a second request is accepted inside that window"
+	r.Rule = "part (a): every store layout of 1..5 (thorough 6) data-file slots, each a gap / a full file / a half file (last slot a real file), x 6 first-record-timestamp patterns (all old, all recent, last recent, last two recent, first recent = non-monotone, every full file old-then-recent) x head {empty, one unflushed record, one flushed record}, built directly as data files (index files are rebuilt); on each: ALL (start,end) in [-1..7]^2 x no_gc_days {-1 and -2 (both mean: the configured 2 days), 0, 1, 10000} x merge off/on with pretend=true (mutation log must stay empty), every refused tuple repeated with pretend=false (must be refused and change nothing), and one real pass per distinct (resolved range, merge, days) judged on the memfs mutation log by the property's own rules: no mutation of the head data file or later, nothing outside [start,end] except appends to a single earlier file, the next non-empty file after end older than the limit; the process that ran the pass has answered pretend requests for every end before it and is asked again afterwards (every end x 3 day values): what it accepts then must respect the age limit judged on the files as they are after the pass. part (b): two and three HStore.GC requests for one bucket from concurrent threads on a store where the range [0,1] is collectable; every interleaving at lock acquisitions, file-system calls and spawns with at most N preemptions (quick 2, thorough 3); a pass is in progress from the acceptance of its request until its goroutine has left gcMgr.gc (thread life observed by the scheduler); violation: two passes overlap, or a second request is accepted inside that window"
 	r.Assumptions = []string{"sequentially consistent interleavings at synchronisation/file-system granularity"}
 	pb := 2
 	if job.Tier != "quick" {
@@ -137,6 +137,7 @@ func C17(job *Job, r *Report) {
 type fileSpec struct {
 	kind   int  // 0 gap, 1 full (2 records), 2 half (1 record)
 	recent bool // first-record timestamp younger than the age limit
+	mixed  bool // full file: first record old, second record younger than the age limit
 }
 
 type gcLayoutSpec struct {
@@ -150,6 +151,9 @@ func (l gcLayoutSpec) String() string {
 		c := "-FH"[f.kind : f.kind+1]
 		if f.recent && f.kind != 0 {
 			c = strings.ToLower(c)
+		}
+		if f.mixed && f.kind == 1 {
+			c = "M"
 		}
 		sb.WriteString(c)
 	}
@@ -185,7 +189,11 @@ func buildLayout(l gcLayoutSpec) *vos.FS {
 				key = "dup" // the same key in several files: all but the last are superseded
 			}
 			n++
-			img = append(img, refEncode(store.VerifRec{Key: key, Body: []byte(fmt.Sprintf("v%d", n)), Ver: int32(n), TS: ts + uint32(j)})...)
+			rts := ts + uint32(j)
+			if f.mixed && f.kind == 1 && j == 1 {
+				rts = uint32(now - 3600 + int64(i))
+			}
+			img = append(img, refEncode(store.VerifRec{Key: key, Body: []byte(fmt.Sprintf("v%d", n)), Ver: int32(n), TS: rts})...)
 		}
 		fs.WriteFileRaw(fmt.Sprintf("/db/%03d.data", i), img)
 	}
@@ -288,6 +296,7 @@ func c17aLayout(l gcLayoutSpec, r *Report) *Mismatch {
 		var gcBegin, gcEnd int
 		var gcErr error
 		var head2 int
+		var again *Mismatch
 		res := vsched.Run(vsched.Opts{}, func(s *vsched.Sched) {
 			m := &Machine{Cfg: cfg, S: s, FS: fsAtReq.Clone()}
 			vos.Attach(m.FS)
@@ -303,10 +312,57 @@ func c17aLayout(l gcLayoutSpec, r *Report) *Mismatch {
 			head2 = m.St.VerifNewHead(0)
 			before = m.dataFiles(0)
 			m.FS.StartLog()
+			// the same process has answered pretend requests for every end before (as an operator probing ranges would):
+			// whatever these leave behind in memory must not influence later decisions
+			for en := 0; en <= 6; en++ {
+				m.St.GC(0, 0, en, -1, false, true)
+				r.Count("evaluations", 1)
+				r.Count("gc_requests_pretend_before_pass", 1)
+			}
 			gcBegin, gcEnd, gcErr = m.St.GC(0, a.start, a.end, a.days, a.merge, false)
 			s.Drain()
 			log = append([]vos.Mut(nil), m.FS.Log...)
+			if gcErr != nil || len(log) == 0 {
+				return
+			}
+			// phase 3: the same process is asked again after the pass (pretend): whatever it accepts now must respect the
+			// age limit as judged on the files as they are NOW (a pass may have changed the first record of a file)
+			after := m.dataFiles(0)
+			nlog := len(m.FS.Log)
+			for _, days := range []int{-1, 1, 10000} {
+				for en := 0; en <= 6; en++ {
+					t0 := vtime.Now().Unix()
+					_, e2, err := m.St.GC(0, 0, en, days, false, true)
+					r.Count("evaluations", 1)
+					r.Count("gc_requests_pretend_after_pass", 1)
+					if len(m.FS.Log) != nlog {
+						again = &Mismatch{Op: fmt.Sprintf("%s then gc(0,%d,days=%d,pretend)", desc, en, days), Where: "mutation log", Want: "pretend changes nothing", Got: mutString(&m.FS.Log[nlog]), Class: "gc-pretend-mutates"}
+						return
+					}
+					if err != nil {
+						continue
+					}
+					d := days
+					if d < 0 {
+						d = cfg.NoGCDays
+					}
+					for id := e2 + 1; id < 998; id++ {
+						if dd, ok := after[id]; ok && len(dd) > 0 {
+							recs, _ := ScanFile(dd)
+							if len(recs) > 0 && !(t0-int64(recs[0].TS) > int64(d)*86400) && !(vtime.Now().Unix()-int64(recs[0].TS) > int64(d)*86400) {
+								again = &Mismatch{Op: fmt.Sprintf("%s gc(%d,%d,days=%d,merge=%v) then gc(0,%d,days=%d,pretend) -> end %d", desc, a.start, a.end, a.days, a.merge, en, days, e2), Where: "age limit",
+									Want: fmt.Sprintf("file %d (first record now %ds old) protects the range for %d days", id, t0-int64(recs[0].TS), d), Got: "accepted", Class: "gc-age-limit-after-pass"}
+								return
+							}
+							break
+						}
+					}
+				}
+			}
 		})
+		if again != nil {
+			return again
+		}
 		r.Count("evaluations", 1)
 		r.Count("gc_passes", 1)
 		op := fmt.Sprintf("%s gc(%d,%d,days=%d,merge=%v) -> [%d,%d]", desc, a.start, a.end, a.days, a.merge, begin, end)
@@ -397,8 +453,12 @@ func c17aLayouts(tier string) []gcLayoutSpec {
 			if kinds[n-1] == 0 || nonGap == 0 {
 				continue // the last slot is a real file (otherwise it is a shorter layout)
 			}
-			// timestamp patterns: all old, all recent, last recent, last two recent, first recent (non-monotone)
-			for pat := 0; pat < 5; pat++ {
+			// timestamp patterns: all old, all recent, last recent, last two recent, first recent (non-monotone),
+			// and "mixed": every full file starts with an old record followed by a recent one
+			for pat := 0; pat < 6; pat++ {
+				if pat == 5 && nonGap == 0 {
+					continue
+				}
 				fsx := make([]fileSpec, n)
 				for i := range fsx {
 					rec := false
@@ -412,7 +472,7 @@ func c17aLayouts(tier string) []gcLayoutSpec {
 					case 4:
 						rec = i == 0
 					}
-					fsx[i] = fileSpec{kinds[i], rec}
+					fsx[i] = fileSpec{kinds[i], rec, pat == 5}
 				}
 				for head := 0; head < 3; head++ {
 					out = append(out, gcLayoutSpec{fsx, head})
